@@ -15,7 +15,7 @@ func init() {
 	register(&Property{
 		ID:      "C15",
 		NeedSSA: true,
-		Decided: "Structural necessary conditions for freedom from data races on shared state: (globals) no package-level variable of the library is written outside package initialisation, except the two classified ones: the bufio reader pool map, every access to which is preceded by Lock of its mutex in the same function, and the created-by string, written only inside a sync.Once; (immutable) package-level values shared by every writer and reader (encodings, codecs, types) have no method that writes a field of its receiver other than through sync/atomic/pool types; (cow) a map published through atomic.Value is never updated after the Store that publishes it — neither the map itself nor a map stored in it — and a map obtained from Load is never updated; (release) a buffer given back to a pool through a struct field is cleared from that field on every path, so it cannot be returned twice and handed to two owners; (wire) no call passes a struct field in the position of the parameter named after a sibling field (reference-counted level buffers handed to the wrong slot lose their reference); (async) the page-reading goroutine shares nothing but channels and the reader it owns with the consumer; (commit) row-group writers other than through Commit write no state of the parent writer; (construct) see C18.construct for the encryption state of concurrently filled row groups. (reentrant) a function that returns a closure and is not itself only called per operation returns a closure without state of its own: the closure assigns no captured variable, stores through no captured factory-allocated pointer/slice/map and calls no reflect setter on a captured reflect.Value. (atomic) no function both updates (Add/And/Or) and reloads the same atomic field; (globals, cont.) the lock call dominates every access to the guarded map. (commitorder) in ConcurrentRowGroupWriter.Commit the call that records the committed row group (it hands the receiver to a method of the parent writer that stores into writer.rowGroups) is dominated by another call of a parent-writer method that reaches the same recorder: the parent's own buffered rows are written first, on every path. (putclear) a function that hands the object held in a field of its receiver back to a pool (through a callee that puts its parameter into a memory.Pool / sync.Pool without reference counting) overwrites that field on every path to a return. (globals, cont.) copying or clearing into the memory of a package-level slice, array or map (seen through phis, re-slicing and module helpers that return the slice they are given), or handing it to a module function that writes through its parameter, counts as a write of the variable.",
+		Decided: "Structural necessary conditions for freedom from data races on shared state: (globals) no package-level variable of the library is written outside package initialisation, except the two classified ones: the bufio reader pool map, every access to which is preceded by Lock of its mutex in the same function, and the created-by string, written only inside a sync.Once; a write is a store, a map update, a copy/clear into, a callee that writes through its parameter, or an append to a shortened re-slice (`g[:0]`, `g[:n]`, capacity kept) of a package-level slice, array or map; (immutable) package-level values shared by every writer and reader (encodings, codecs, types) have no method that writes a field of its receiver other than through sync/atomic/pool types; (cow) a map published through atomic.Value is never updated after the Store that publishes it — neither the map itself nor a map stored in it — and a map obtained from Load is never updated; (release) a buffer given back to a pool through a struct field is cleared from that field on every path, so it cannot be returned twice and handed to two owners; (wire) no call passes a struct field in the position of the parameter named after a sibling field (reference-counted level buffers handed to the wrong slot lose their reference); (async) the page-reading goroutine shares nothing but channels and the reader it owns with the consumer; (commit) row-group writers other than through Commit write no state of the parent writer; (construct) see C18.construct for the encryption state of concurrently filled row groups. (reentrant) a function that returns a closure and is not itself only called per operation returns a closure without state of its own: the closure assigns no captured variable, stores through no captured factory-allocated pointer/slice/map and calls no reflect setter on a captured reflect.Value. (atomic) no function both updates (Add/And/Or) and reloads the same atomic field; (globals, cont.) the lock call dominates every access to the guarded map. (commitorder) in ConcurrentRowGroupWriter.Commit the call that records the committed row group (it hands the receiver to a method of the parent writer that stores into writer.rowGroups) is dominated by another call of a parent-writer method that reaches the same recorder: the parent's own buffered rows are written first, on every path. (putclear) a function that hands the object held in a field of its receiver back to a pool (through a callee that puts its parameter into a memory.Pool / sync.Pool without reference counting) overwrites that field on every path to a return. (globals, cont.) copying or clearing into the memory of a package-level slice, array or map (seen through phis, re-slicing and module helpers that return the slice they are given), or handing it to a module function that writes through its parameter, counts as a write of the variable. (bucket) every allocation function handed to slicePools[i].Get in internal/memory sizes the new slice with bucketSize(i) for the same i: the pools are process-wide and their users re-slice what they get up to the bucket size.",
 		NotDecided: "deadlock freedom, scheduling, equality with a serial run, races inside dependencies or assembly, correctness of the reference counts as numbers.",
 		Assumptions: []string{"sync, sync/atomic and internal/memory.Pool are correct", "writes through unsafe pointers and reflection are not seen"},
 		Run:         runC15,
@@ -24,6 +24,7 @@ func init() {
 
 func runC15(c *Ctx) {
 	c15Globals(c)
+	c15Bucket(c)
 	c15Immutable(c)
 	c15COW(c)
 	c15Release(c)
@@ -114,6 +115,49 @@ func rawGlobalBehind(v ssa.Value, depth int) *ssa.Global {
 	return nil
 }
 
+// shortenedGlobalBehind: v is (an append chain or phi over) a re-slice of a
+// raw-memory package-level variable that keeps its capacity — `g[:0]`,
+// `g[:n]` — so that appending to it writes the variable's storage.
+func shortenedGlobalBehind(v ssa.Value, seen map[ssa.Value]bool) *ssa.Global {
+	if v == nil || seen[v] || len(seen) > 64 {
+		return nil
+	}
+	seen[v] = true
+	switch x := v.(type) {
+	case *ssa.Slice:
+		if x.Max == nil && x.High != nil {
+			if g := rawGlobalBehind(x.X, 0); g != nil {
+				return g
+			}
+			if g := globalOf(x.X); isModuleGlobal(g) && rawMemoryGlobal(g) {
+				return g
+			}
+		}
+		return shortenedGlobalBehind(x.X, seen)
+	case *ssa.Phi:
+		for _, e := range x.Edges {
+			if g := shortenedGlobalBehind(e, seen); g != nil {
+				return g
+			}
+		}
+	case *ssa.Call:
+		if bi, ok := x.Call.Value.(*ssa.Builtin); ok && bi.Name() == "append" {
+			return shortenedGlobalBehind(x.Call.Args[0], seen)
+		}
+	case *ssa.UnOp:
+		if a, ok := x.X.(*ssa.Alloc); ok && x.Op == token.MUL {
+			for _, ref := range *a.Referrers() {
+				if st, ok := ref.(*ssa.Store); ok && st.Addr == ssa.Value(a) {
+					if g := shortenedGlobalBehind(st.Val, seen); g != nil {
+						return g
+					}
+				}
+			}
+		}
+	}
+	return nil
+}
+
 var globalsParamWrites = &paramWriteSummaries{memo: map[*ssa.Function]map[int][]chainWrite{}, busy: map[*ssa.Function]bool{}}
 
 func c15Globals(c *Ctx) {
@@ -176,6 +220,13 @@ func c15Globals(c *Ctx) {
 						if g := rawGlobalBehind(cc.Args[0], 0); g != nil {
 							nWrites++
 							c.Fail(rule, FuncKey(fn)+" writes package-level "+shortPkg(g.Pkg.Pkg.Path())+g.Name(), ins.Pos(), "%s copies into memory of the package-level variable %s outside package initialisation: every goroutine using the library shares it, and nothing synchronises the write", FuncKey(fn), g.Name())
+						}
+					}
+					if bi.Name() == "append" && len(cc.Args) > 0 {
+						// appending to a shortened slice of the variable fills its storage
+						if g := shortenedGlobalBehind(cc.Args[0], map[ssa.Value]bool{}); g != nil {
+							nWrites++
+							c.Fail(rule, FuncKey(fn)+" writes package-level "+shortPkg(g.Pkg.Pkg.Path())+g.Name(), ins.Pos(), "%s appends to a shortened slice of the package-level variable %s, which writes the variable's storage, outside package initialisation: every goroutine using the library shares it, and nothing synchronises the write", FuncKey(fn), g.Name())
 						}
 					}
 					return
